@@ -695,6 +695,12 @@ pub fn parse_concurrent_statement(
 pub fn parse_labeled_concurrent_statements(
     ctx: &mut ParsingContext<'_>,
 ) -> ParseResult<Vec<LabeledConcurrentStatement>> {
+    ctx.nested(_parse_labeled_concurrent_statements)
+}
+
+fn _parse_labeled_concurrent_statements(
+    ctx: &mut ParsingContext<'_>,
+) -> ParseResult<Vec<LabeledConcurrentStatement>> {
     let mut statements = Vec::new();
     loop {
         let token = ctx.stream.peek_expect()?;
